@@ -142,10 +142,10 @@ def run_rule(rid, facts, k):
         return ctx
     rd.fn(ctx)
     floors = load_floors()
-    fl = floors.get(rid, {}).get(facts.config)
-    if fl is not None and len(ctx.instances) < fl:
-        ctx.violations.append(Violation(rid, '<crate>', 'floor', 'anchor missing: %d instances matched, %d confirmed by hand on the pinned tree' % (
-            len(ctx.instances), fl), None, {'instances': ctx.instances}, facts.config))
+    fl = floors.get(rid, {}).get(facts.config) if isinstance(floors.get(rid), dict) else None
+    if fl is not None and len(set(ctx.instances)) < fl:
+        ctx.violations.append(Violation(rid, '<crate>', 'floor', 'anchor missing: %d distinct rule instances matched, %d confirmed on the pinned tree' % (
+            len(set(ctx.instances)), fl), None, {'instances': sorted(set(ctx.instances))}, facts.config))
     return ctx
 
 
